@@ -292,7 +292,9 @@ theorem accClose_posts (n : NetSt) (now : Int) (name : String) (s : TcpSock) (a 
     postsOf (n.accClose now name).2 = postsOf (tcpAbortAcceptEffs s) ++ postsOf (tcpCancelEffs s)
     ∧ ∃ s', (n.accClose now name).1.tcp? name = some s'
         ∧ s'.acceptOp = none ∧ s'.recvH = none ∧ s'.waitRecvH = none ∧ s'.sendH = none ∧ s'.connectH = none
-        ∧ s'.isOpen = false ∧ s'.fwd = none ∧ s'.acc.map (·.conns) = some [] := by
+        ∧ s'.isOpen = false ∧ s'.fwd = none ∧ s'.acc.map (·.conns) = some []
+        ∧ ∃ s1, (n.accClose now name).1 = (((n.setTcp name s1).tcpClose now name).1).setTcp name s'
+            ∧ s1.fwd = s.fwd ∧ s1.chan = s.chan ∧ s1.bound = s.bound := by
   open HL in
   unfold NetSt.accClose
   rw [hs]; dsimp only; rw [ha]; dsimp only
@@ -304,7 +306,8 @@ theorem accClose_posts (n : NetSt) (now : Int) (name : String) (s : TcpSock) (a 
   have e5 : s1.acceptOp = s.acceptOp := by subst hs1; simp [TcpSock.acceptOp, ha]
   have e6 : s1.acc.isSome := by subst hs1; rfl
   obtain ⟨g0, g1, g2, g3, g4⟩ := tcp_abortAccept_slots s1
-  obtain ⟨_, _, _, _, _, f6, _, _⟩ := tcp_abortAccept_frame s1
+  obtain ⟨_, f2, f3, f4, _, f6, _, _⟩ := tcp_abortAccept_frame s1
+  have e7 : s1.fwd = s.fwd ∧ s1.chan = s.chan ∧ s1.bound = s.bound := by subst hs1; exact ⟨rfl, rfl, rfl⟩
   -- close of the acceptor as a socket
   obtain ⟨hce, s2, hs2, c1, c2, c3, c4, c5, c6, c7, _, _, _⟩ :=
     tcpClose_some (n.setTcp name s1.abortAccept.1) now name s1.abortAccept.1 (setTcp_tcp_same _ _ _)
@@ -343,7 +346,8 @@ theorem accClose_posts (n : NetSt) (now : Int) (name : String) (s : TcpSock) (a 
       · unfold TcpSock.acceptOp; simp [hop2']
   obtain ⟨rs, s3, hq, hsil, k0, k1, k2, k3, k4, k5, k6, k7⟩ := hcq
   rw [hq]
-  refine ⟨?_, s3, setTcp_tcp_same _ _ _, k0, k1, k2, k3, k4, k5, k6, k7⟩
+  refine ⟨?_, s3, setTcp_tcp_same _ _ _, k0, k1, k2, k3, k4, k5, k6, k7, s1.abortAccept.1, rfl,
+    by rw [f3, e7.1], by rw [f4, e7.2.1], by rw [f2, e7.2.2]⟩
   dsimp only
   rw [postsOf_append, postsOf_append, postsOf_silent hsil, List.append_nil, hce, postsOf_append,
     postsOf_silent (silent_tcpCloseEof _ _ _ _), List.nil_append, tcp_abortAccept_effs,
